@@ -196,6 +196,58 @@ func (c *Check) htmlDictInputs(p *ev.Part, fn func(w *Worker, s string)) {
 	c.dictSeq(p, words, htmlDictAlpha[:5], 5, 5, each)
 }
 
+// nearMissWords: every dictionary word (as written, upper, lower) with exactly one byte replaced by its
+// neighbour under the case bit (b^0x20: 'a'<->'A', '_'<->0x7f, '@'<->'`', '['<->'{') or under the high bit
+// (b^0x80). A comparison that normalises a byte range one byte too wide or too narrow, or masks a bit without
+// testing the range, accepts or rejects exactly such a word. Input source only; no oracle depends on it.
+func nearMissWords(ws []string) []string {
+	seen := map[string]bool{}
+	for _, w := range dictWords(ws) {
+		seen[w] = true
+	}
+	var out []string
+	for _, w := range dictWords(ws) {
+		for i := 0; i < len(w); i++ {
+			for _, x := range []byte{0x20, 0x80} {
+				b := []byte(w)
+				b[i] ^= x
+				v := string(b)
+				if !seen[v] {
+					seen[v] = true
+					out = append(out, v)
+				}
+			}
+		}
+	}
+	return out
+}
+
+// SQL side: lead construct + blank? + near-miss word + blank? + every tail of 0..1 symbols
+func (c *Check) sqlNearMissInputs(p *ev.Part, fn func(w *Worker, s string)) {
+	words := nearMissWords(srcDict().SQL)
+	tails := append([]string{""}, sqlDictTail...)
+	c.ParRange(p, int64(len(words)), func(w *Worker, i int64) {
+		wd := words[i]
+		for _, tail := range tails {
+			for _, ld := range sqlDictLeads {
+				fn(w, ld+wd+tail)
+				fn(w, ld+" "+wd+" "+tail)
+				fn(w, ld+" "+wd+tail)
+			}
+		}
+	})
+}
+
+// HTML side: construct opener + every sequence of 1..2 symbols over {W} + 10 structural symbols that contains W
+func (c *Check) htmlNearMissInputs(p *ev.Part, fn func(w *Worker, s string)) {
+	words := nearMissWords(srcDict().HTML)
+	c.dictSeq(p, words, htmlDictAlpha, 1, 2, func(w *Worker, s string) {
+		for _, op := range htmlDictOpeners {
+			fn(w, op+s)
+		}
+	})
+}
+
 // extraBytes: the single bytes the source writes as literals that the byte-class alphabet does not contain.
 // A byte the scanners start to treat specially is, almost always, a character literal in their source.
 func extraBytes(src, alpha []string) []string {
